@@ -106,6 +106,30 @@ M = {
  "k2": ("the real store lower-cases the store name before resolving the directory", [(TS,
      "SysPath(dir.X509TrustStoreDir(string(storeType), namedStore))", "SysPath(dir.X509TrustStoreDir(string(storeType), strings.ToLower(namedStore)))"),
      (TS, "import (\n", "import (\n\t\"strings\"\n")]),
+ # --- round 6: blob entry point with names no statement carries next to a global statement; look-alike certificates
+ "g1": ("VerifyBlob falls back to the global statement for a name no statement carries (seeded C03-13)", [(VF,
+     "\tif opts.TrustPolicyName == \"\" {\n\t\ttrustPolicy, err = v.blobTrustPolicyDoc.GetGlobalTrustPolicy()\n\t} else {\n\t\ttrustPolicy, err = v.blobTrustPolicyDoc.GetApplicableTrustPolicy(opts.TrustPolicyName)\n\t}",
+     "\ttrustPolicy, err = v.blobTrustPolicyDoc.GetApplicableTrustPolicy(opts.TrustPolicyName)\n\tif err != nil {\n\t\ttrustPolicy, err = v.blobTrustPolicyDoc.GetGlobalTrustPolicy()\n\t}")]),
+ "g2": ("a blank statement name counts as no name: the global statement applies", [(VF,
+     "\tif opts.TrustPolicyName == \"\" {\n\t\ttrustPolicy, err = v.blobTrustPolicyDoc.GetGlobalTrustPolicy()",
+     "\tif strings.TrimSpace(opts.TrustPolicyName) == \"\" {\n\t\ttrustPolicy, err = v.blobTrustPolicyDoc.GetGlobalTrustPolicy()")]),
+ "g3": ("without a global statement the first blob statement serves as one", [("verifier/trustpolicy/blob.go",
+     "\treturn nil, fmt.Errorf(\"no global blob trust policy\")", "\treturn (&policyDoc.TrustPolicies[0]).clone(), nil")]),
+ "g4": ("the global statement's stores are added to those of the named statement", [(VF,
+     "\t\ttrustPolicy, err = v.blobTrustPolicyDoc.GetApplicableTrustPolicy(opts.TrustPolicyName)\n\t}",
+     "\t\ttrustPolicy, err = v.blobTrustPolicyDoc.GetApplicableTrustPolicy(opts.TrustPolicyName)\n\t\tif g, gerr := v.blobTrustPolicyDoc.GetGlobalTrustPolicy(); err == nil && gerr == nil {\n\t\t\ttrustPolicy.TrustStores = append(trustPolicy.TrustStores, g.TrustStores...)\n\t\t}\n\t}")]),
+ "y1": ("trust by CA key: the chain's last certificate verifies under a trusted certificate (seeded C03-15)", [(VF,
+     "\t_, err := signature.VerifyAuthenticity(&outcome.EnvelopeContent.SignerInfo, trustCerts)\n",
+     "\t_, err := signature.VerifyAuthenticity(&outcome.EnvelopeContent.SignerInfo, trustCerts)\n\tif err != nil {\n\t\tch := outcome.EnvelopeContent.SignerInfo.CertificateChain\n\t\tfor _, tc := range trustCerts {\n\t\t\tif len(ch) > 0 && ch[len(ch)-1].CheckSignatureFrom(tc) == nil {\n\t\t\t\terr = nil\n\t\t\t}\n\t\t}\n\t}\n")]),
+ "y2": ("trust by public key: a chain certificate with the key of a trusted certificate", [(VF,
+     "\t_, err := signature.VerifyAuthenticity(&outcome.EnvelopeContent.SignerInfo, trustCerts)\n",
+     "\t_, err := signature.VerifyAuthenticity(&outcome.EnvelopeContent.SignerInfo, trustCerts)\n\tif err != nil {\n\t\tfor _, cc := range outcome.EnvelopeContent.SignerInfo.CertificateChain {\n\t\t\tfor _, tc := range trustCerts {\n\t\t\t\tif string(cc.RawSubjectPublicKeyInfo) == string(tc.RawSubjectPublicKeyInfo) {\n\t\t\t\t\terr = nil\n\t\t\t\t}\n\t\t\t}\n\t\t}\n\t}\n")]),
+ "y3": ("trust by subject name: a chain certificate with the subject of a trusted certificate", [(VF,
+     "\t_, err := signature.VerifyAuthenticity(&outcome.EnvelopeContent.SignerInfo, trustCerts)\n",
+     "\t_, err := signature.VerifyAuthenticity(&outcome.EnvelopeContent.SignerInfo, trustCerts)\n\tif err != nil {\n\t\tfor _, cc := range outcome.EnvelopeContent.SignerInfo.CertificateChain {\n\t\t\tfor _, tc := range trustCerts {\n\t\t\t\tif string(cc.RawSubject) == string(tc.RawSubject) && tc.IsCA {\n\t\t\t\t\terr = nil\n\t\t\t\t}\n\t\t\t}\n\t\t}\n\t}\n")]),
+ "y4": ("trust by chain building: the leaf verifies against the trusted certificates as roots", [(VF,
+     "\t_, err := signature.VerifyAuthenticity(&outcome.EnvelopeContent.SignerInfo, trustCerts)\n",
+     "\t_, err := signature.VerifyAuthenticity(&outcome.EnvelopeContent.SignerInfo, trustCerts)\n\tif ch := outcome.EnvelopeContent.SignerInfo.CertificateChain; err != nil && len(ch) > 0 {\n\t\troots, inter := x509.NewCertPool(), x509.NewCertPool()\n\t\tfor _, tc := range trustCerts {\n\t\t\troots.AddCert(tc)\n\t\t}\n\t\tfor _, ic := range ch[1:] {\n\t\t\tinter.AddCert(ic)\n\t\t}\n\t\tif _, verr := ch[0].Verify(x509.VerifyOptions{Roots: roots, Intermediates: inter, KeyUsages: []x509.ExtKeyUsage{x509.ExtKeyUsageAny}}); verr == nil {\n\t\t\terr = nil\n\t\t}\n\t}\n")]),
  # --- tie to the translated source: property-breaking edits inside each translated function
  #     (besides m1 m2 m3 m8 m9 m11 m12 m16 m21 above, which sit in the same functions)
  "t1": ("isTSATrustStoreInPolicy: comparison reversed", [(H, "if truststore.Type(storeType) == truststore.TypeTSA {", "if truststore.Type(storeType) != truststore.TypeTSA {")]),
